@@ -216,11 +216,13 @@ Qed.
 (* the right of a right-associative one); result = (tree in pyparsing's convention, remaining tokens).  `render ts` is    *)
 (* the input string (tokens joined by single spaces).  `ctable_of dw table = Some ctab` reads the element table as a      *)
 (* token table (operators: Literal or MatchFirst of Literals; levels: unary prefix / postfix, binary left / right,        *)
-(* juxtaposition right); `base_chars dw base = Some cs`: the operand is Word(cs); `par_spelling`: a Literal or            *)
+(* juxtaposition right, TERNARY left / right - two operator positions `a ? b : c`, both spellings lists enter             *)
+(* `no_overlapb` / `token_okb` through `level_ops`); `base_chars dw base = Some cs`: the operand is Word(cs); `par_spelling`: a Literal or *)
 (* Suppress(Literal) parenthesis.  `no_overlapb dw cs lp ctab`: the space is a white character, no operand character is;  *)
 (* every spelling is non-empty, white-free and does not start with an operand character; the opening parenthesis is not  *)
 (* a prefix of an operator; NO OPERATOR SPELLING IS A PROPER PREFIX OF ANOTHER (the F-16 family).                         *)
-(* `_partial`: LJuxL and the ternary levels are not covered (ctable_of = None); the tokens contain no parentheses.        *)
+(* `_partial`: LJuxL is not covered (ctable_of = None; the end position of C16_climb_partial is false for it, see         *)
+(* C16_climb_juxl_end_position_computed); Keyword operators are not covered; the tokens contain no parentheses.           *)
 (* ------------------------------------------------------------------------------------------------------------- *)
 Theorem C16_climb_partial : forall dw ids base table lpar rpar cs ctab lp ts,
   base_chars dw base = Some cs -> ctable_of dw table = Some ctab -> par_spelling dw lpar = Some lp ->
@@ -333,4 +335,100 @@ Example C16_climb_arith_starstar_computed :
   peg (fst (infix_ref dws ex_ids ex_base (ar_table starstar) ex_lpar ex_rpar)) (render (ar_toks starstar)) 60
       (snd (infix_ref dws ex_ids ex_base (ar_table starstar) ex_lpar ex_rpar)) 0
     = POk (length (render (ar_toks starstar))) [ar_tree starstar].
+Proof. vm_compute. repeat split. Qed.
+
+(* ---- instances THROUGH the theorem with TERNARY levels.  `? :` right-associative listed ABOVE (tighter than) a binary `+`,
+        on "1 ? 2 : 3 ? 4 : 5 + 6": the conditional nests to the right and is the left operand of `+`
+        [[1, ?, 2, :, [3, ?, 4, :, 5]], +, 6];  the same operators in the C order (`+` tighter): [1, ?, 2, :, [3, ?, 4, :, [5, +, 6]]];
+        `? :` LEFT-associative above `+`: one flat group [[1, ?, 2, :, 3, ?, 4, :, 5], +, 6]. ---- *)
+Definition q_ : str := [63%N].      (* ? *)
+Definition c_ : str := [58%N].      (* : *)
+Definition p_ : str := [43%N].      (* + *)
+Definition tn_toks : list token :=
+  [d_ 49; TOp q_; d_ 50; TOp c_; d_ 51; TOp q_; d_ 52; TOp c_; d_ 53; TOp p_; d_ 54]%N.
+Definition s_ (c : N) : tok := TStr [c].
+Definition tr_table : list level := [LTernR (lit 110 q_) (lit 111 c_) []; LBinL (lit 112 p_) []].
+Definition tr_ctab : ctable := [CTernR [q_] [c_]; CBinL [p_]].
+Definition tr_tree : tok :=
+  TList [TList [s_ 49; TStr q_; s_ 50; TStr c_; TList [s_ 51; TStr q_; s_ 52; TStr c_; s_ 53]]; TStr p_; s_ 54]%N.
+Definition tc_table : list level := [LBinL (lit 112 p_) []; LTernR (lit 110 q_) (lit 111 c_) []].
+Definition tc_ctab : ctable := [CBinL [p_]; CTernR [q_] [c_]].
+Definition tc_tree : tok :=
+  TList [s_ 49; TStr q_; s_ 50; TStr c_; TList [s_ 51; TStr q_; s_ 52; TStr c_; TList [s_ 53; TStr p_; s_ 54]]]%N.
+Definition tl_table : list level := [LTernL (lit 110 q_) (lit 111 c_) []; LBinL (lit 112 p_) []].
+Definition tl_ctab : ctable := [CTernL [q_] [c_]; CBinL [p_]].
+Definition tl_tree : tok :=
+  TList [TList [s_ 49; TStr q_; s_ 50; TStr c_; s_ 51; TStr q_; s_ 52; TStr c_; s_ 53]; TStr p_; s_ 54]%N.
+
+Definition tern_hyps (table : list level) (ctab : ctable) (tree : tok) : Prop :=
+  table_okb dws (start_skip ex_base ex_lpar) table = true /\
+  base_chars dws ex_base = Some digits /\ ctable_of dws table = Some ctab /\
+  par_spelling dws ex_lpar = Some [40%N] /\ not_plain_and ex_rpar = true /\
+  no_overlapb dws digits [40%N] ctab = true /\ forallb (token_okb digits ctab) tn_toks = true /\
+  Climb.climb_all ctab tn_toks = Some tree /\
+  Climb.climb ctab tn_toks = Some (tree, []).
+
+Example C16_climb_ternr_hyps :
+  render tn_toks = [49;32;63;32;50;32;58;32;51;32;63;32;52;32;58;32;53;32;43;32;54]%N /\
+  tern_hyps tr_table tr_ctab tr_tree.
+Proof. vm_compute. repeat split. Qed.
+Example C16_climb_ternr_c_order_hyps : tern_hyps tc_table tc_ctab tc_tree.
+Proof. vm_compute. repeat split. Qed.
+Example C16_climb_ternl_hyps : tern_hyps tl_table tl_ctab tl_tree.
+Proof. vm_compute. repeat split. Qed.
+
+(* reference grammar, by the theorem *)
+Example C16_climb_ternr_ref :
+  pegR (fst (infix_ref dws ex_ids ex_base tr_table ex_lpar ex_rpar)) (render tn_toks)
+       (snd (infix_ref dws ex_ids ex_base tr_table ex_lpar ex_rpar)) 0 (POk (length (render tn_toks)) [tr_tree]).
+Proof.
+  destruct C16_climb_ternr_hyps as (_ & _ & Hb & Ht & Hp & Hr & Hno & Htk & Hall & _).
+  exact (proj2 (C16_climb_all_partial dws ex_ids ex_base tr_table ex_lpar ex_rpar digits tr_ctab [40%N]
+                  tn_toks Hb Ht Hp Hr Hno Htk tr_tree) Hall).
+Qed.
+
+(* the grammar infix_notation builds, by the theorem composed with C16_table_equiv *)
+Example C16_climb_ternr_elab :
+  pegR (fst (infix_elab dws ex_ids ex_base tr_table ex_lpar ex_rpar)) (render tn_toks)
+       (snd (infix_elab dws ex_ids ex_base tr_table ex_lpar ex_rpar)) 0 (POk (length (render tn_toks)) [tr_tree]).
+Proof.
+  destruct C16_climb_ternr_hyps as (_ & Hok & Hb & Ht & Hp & Hr & Hno & Htk & _ & Hc).
+  pose proof (C16_climb_elab_partial dws ex_ids ex_base tr_table ex_lpar ex_rpar digits tr_ctab [40%N]
+                tn_toks Hok Hb Ht Hp Hr Hno Htk) as H.
+  cbv zeta in H. rewrite Hc in H. exact H.
+Qed.
+
+Example C16_climb_ternr_c_order_elab :
+  pegR (fst (infix_elab dws ex_ids ex_base tc_table ex_lpar ex_rpar)) (render tn_toks)
+       (snd (infix_elab dws ex_ids ex_base tc_table ex_lpar ex_rpar)) 0 (POk (length (render tn_toks)) [tc_tree]).
+Proof.
+  destruct C16_climb_ternr_c_order_hyps as (Hok & Hb & Ht & Hp & Hr & Hno & Htk & _ & Hc).
+  pose proof (C16_climb_elab_partial dws ex_ids ex_base tc_table ex_lpar ex_rpar digits tc_ctab [40%N]
+                tn_toks Hok Hb Ht Hp Hr Hno Htk) as H.
+  cbv zeta in H. rewrite Hc in H. exact H.
+Qed.
+
+Example C16_climb_ternl_elab :
+  pegR (fst (infix_elab dws ex_ids ex_base tl_table ex_lpar ex_rpar)) (render tn_toks)
+       (snd (infix_elab dws ex_ids ex_base tl_table ex_lpar ex_rpar)) 0 (POk (length (render tn_toks)) [tl_tree]).
+Proof.
+  destruct C16_climb_ternl_hyps as (Hok & Hb & Ht & Hp & Hr & Hno & Htk & _ & Hc).
+  pose proof (C16_climb_elab_partial dws ex_ids ex_base tl_table ex_lpar ex_rpar digits tl_ctab [40%N]
+                tn_toks Hok Hb Ht Hp Hr Hno Htk) as H.
+  cbv zeta in H. rewrite Hc in H. exact H.
+Qed.
+
+(* LJuxL stays outside `ctable_of`, necessarily for the statement as it is: `Group(last + last + last[...])` ends with a
+   ZeroOrMore(last), which, when it matches nothing, stops AFTER the whitespace it skipped as soon as `last` is a Forward
+   (callPreparse is copied from it; for the tightest level `last` is the operand MatchFirst and nothing is skipped).
+   Table [('!', 1, LEFT), (None, 2, LEFT), ('+', 2, LEFT)] on the tokens 1 2 + ("1 2 +"): climbing reads [1, 2] and leaves
+   the token +, so the end position C16_climb_partial would claim is 3 (the end of the token 2); the reference grammar reads
+   [[1, 2]] up to 4.  (Computation only; on WHOLE inputs, C16_climb_all_partial, the two agree in every case the check compared.) *)
+Example C16_climb_juxl_end_position_computed :
+  let table := [LPostfix (lit 113 [33%N]) []; LJuxL []; LBinL (lit 112 p_) []] in
+  let ts := [d_ 49; d_ 50; TOp p_]%N in
+  Climb.climb [CPostfix [[33%N]]; CJuxL; CBinL [p_]] ts = Some (TList [s_ 49; s_ 50]%N, [TOp p_]) /\
+  length (render (firstn (length ts - 1) ts)) = 3 /\
+  peg (fst (infix_ref dws ex_ids ex_base table ex_lpar ex_rpar)) (render ts) 60
+      (snd (infix_ref dws ex_ids ex_base table ex_lpar ex_rpar)) 0 = POk 4 [TList [s_ 49; s_ 50]%N].
 Proof. vm_compute. repeat split. Qed.
